@@ -12,12 +12,19 @@ TPlanar == /\ IsEvent("planar")
               /\ IsUnit(t.nrm, t.den) /\ t.c # 0
               /\ (\A i \in 1..Len(t.pts) : OnSurface(t.nrm, t.c, t.pts[i])) = TRUE
               /\ (\A i \in 1..Len(t.outs) : t.gap[i] => (t.exact[i] /\ t.curv0[i] /\ NormalOK(t.outs[i], t.nrm, t.c))) = TRUE
+\* two surfaces far apart, one estimator and one buffer reused frame after frame: each point gets the normal of ITS patch
+TPatches == /\ IsEvent("patches")
+            /\ LET t == Tr[l] IN
+               /\ IsUnit(t.nrm1, t.den) /\ IsUnit(t.nrm2, t.den) /\ t.c1 # 0 /\ t.c2 # 0
+               /\ (\A i \in 1..Len(t.pts) : IF t.patch[i] = 1 THEN OnSurface(t.nrm1, t.c1, t.pts[i]) ELSE OnSurface(t.nrm2, t.c2, t.pts[i])) = TRUE
+               /\ (\A i \in 1..Len(t.outs) : t.gap[i] =>
+                      (t.exact[i] /\ t.curv0[i] /\ (IF t.patch[i] = 1 THEN NormalOK(t.outs[i], t.nrm1, t.c1) ELSE NormalOK(t.outs[i], t.nrm2, t.c2)))) = TRUE
 \* any cloud: unit length, sensor-facing, curvature in [0, 1/DIM] (flags computed from the returned values)
 TRange == IsEvent("range") /\ Tr[l].unit /\ Tr[l].facing /\ Tr[l].curvRange
 \* rotating the cloud by a signed permutation rotates the normals by it
 TEquiv == /\ IsEvent("equiv")
           /\ LET t == Tr[l] IN (\A i \in 1..Len(t.outs) : (t.gap[i] /\ t.gap2[i]) => t.outs2[i] = MatVec(t.Q, t.outs[i])) = TRUE
-TraceNext == TReset \/ TPlanar \/ TRange \/ TEquiv
+TraceNext == TReset \/ TPlanar \/ TPatches \/ TRange \/ TEquiv
 TraceSpec == TraceInit /\ [][TraceNext]_l
 TraceAccepted == TLCGet("stats").diameter - 1 = Len(Tr)
 =============================================================================
